@@ -103,6 +103,9 @@ def run(rep):
                               "nontrivial": bool(feat["dst"]) and feat["dst"] != feat["src"]})
     forms.replay(rep, items, "c12.gen")
     random_trace(rep, quick, 3000 if quick else 200000)
+    # the configuration tables as a model (spec/Config.tla): reported in the evidence, gating nothing here
+    import lint
+    lint.report(rep, (), "config")
 
 
 _F = {"mm": 10, "cm": 100, "dm": 1000, "m": 10 ** 4, "dam": 10 ** 5, "hm": 10 ** 6, "km": 10 ** 7, "in": 254, "ft": 3048, "yard": 9144, "furlong": 2011680,
